@@ -67,6 +67,8 @@ def handle : Handler
          .num (if i = a then (if s.alloc i = s0.alloc i then 0 else 1) else (if s.ptr i = i then 0 else 1))])
   | "alias_mul_2exp", args => runB mul_2exp args
   | "alias_tdiv_q_2exp", args => runB tdiv_q_2exp args
+  | "alias_cdiv_q_2exp", args => runB cdiv_q_2exp args
+  | "alias_fdiv_q_2exp", args => runB fdiv_q_2exp args
   | _, _ => none
 
 end Mpir.Ops.Alias
